@@ -262,14 +262,14 @@ func ThrowOnContextCancel[T any]() func(Observable[T]) Observable[T] {
 
 			done := make(chan struct{})
 
-			go func() {
+			go recoverUnhandledError(func() {
 				select {
 				case <-subscriberCtx.Done():
 					destination.ErrorWithContext(subscriberCtx, subscriberCtx.Err())
 				case <-done:
 					destination.CompleteWithContext(subscriberCtx)
 				}
-			}()
+			})
 
 			sub := source.SubscribeWithContext(
 				subscriberCtx,
